@@ -123,7 +123,7 @@ def main():
     def display_table(type_name):
         b = fn_body(tree, r"impl Display for " + type_name + r"\s*\{", "fmt", f"Display for {type_name}")
         rows = []
-        for lhs, text in re.findall(r"((?:Self::\w+\s*\|?\s*)+)=>\s*\{?\s*f\.write_str\(\s*\"([^\"]*)\"\s*\)", b):
+        for lhs, text in re.findall(r"((?:Self::\w+\s*\|?\s*)+)=>\s*\{?\s*f\.write_str\(\s*\"([^\"]*)\"\s*,?\s*\)", b):
             for v in re.findall(r"Self::(\w+)", lhs):
                 rows.append((v, text))
         if not rows:
@@ -175,10 +175,28 @@ def main():
     b = fn_body(vurl, r"impl Scheme\s*\{", "parse", "Scheme::parse")
     scheme_parse = re.findall(r'"([^"]+)"\s*=>\s*Some\(Self::(\w+)\)', b)
     b = fn_body(vurl, r"impl std::fmt::Display for Scheme\s*\{", "fmt", "Display for Scheme")
-    scheme_display = re.findall(r'Self::(\w+)\s*=>\s*write!\(f,\s*"([^"]+)"\)', b)
+    scheme_display = re.findall(r'Self::(\w+)\s*=>\s*\{?\s*write!\(\s*f,\s*"([^"]+)"\s*,?\s*\)', b)
     scheme_variants = enum_variants(vurl, "Scheme")
     if len(scheme_parse) < 3 or len(scheme_display) < 3:
         raise TableError("Scheme: cannot read parse / Display")
+
+    def by_decl(rows, order, col):
+        """rows sorted by the declaration order of the variant in column `col` (the order of match arms is not semantic)"""
+        pos = {v: i for i, v in enumerate(order)}
+        return sorted(rows, key=lambda r: (pos.get(r[col], len(order)), r))
+
+    key_names = sorted(key_names)
+    skey_display = by_decl(skey_display, skeys, 0)
+    vkey_display = by_decl(vkey_display, vkeys, 0)
+    get_string = by_decl(get_string, skeys, 0)
+    get_version = by_decl(get_version, vkeys, 0)
+    op_tokens = by_decl(op_tokens, mops, 1)
+    op_display = by_decl(op_display, mops, 0)
+    invert = by_decl(invert, mops, 0)
+    negate = by_decl(negate, mops, 0)
+    to440 = by_decl(to440, mops, 0)
+    scheme_parse = by_decl(scheme_parse, scheme_variants, 1)
+    scheme_display = by_decl(scheme_display, scheme_variants, 0)
 
     def pairs(rows):
         return "[" + ", ".join(f"({lean_str(a)}, {lean_str(b)})" for a, b in rows) + "]"
